@@ -1,7 +1,7 @@
 CONSTANTS
   Keys = {"a", "b"}
   Clients = {"c1"}
-  MaxVer = 2
+  MaxVer = 1
   MaxBatch = 2
   MaxMsg = 1
   MaxStatus = 2
